@@ -19,6 +19,7 @@ EXPECTED = os.path.join(HERE, "surface_expected.json")
 DEPENDS = {
     "scheduler/__init__.py": ["GenRegistry.v", "GenOnce.v"],
     "scheduler/error.py": ["GenJobInit.v", "GenJobUtil.v"],
+    "scheduler/message.py": ["GenJobInit.v", "GenJobUtil.v", "GenOnce.v"],
     "scheduler/util.py": ["GenOccur.v"],
     "scheduler/prioritization.py": ["GenPrio.v"],
     "scheduler/trigger/__init__.py": ["GenTrigger.v"],
@@ -40,6 +41,25 @@ DEPENDS = {
 }
 
 
+def stringish(n):
+    """an expression that only builds a message text: string constants, +, slices, .format of such, names of such"""
+    if isinstance(n, ast.Constant):
+        return isinstance(n.value, (str, int)) or n.value is None
+    if isinstance(n, ast.Name):
+        return n.id.isupper() or n.id.lstrip("_").isupper()
+    if isinstance(n, ast.BinOp) and isinstance(n.op, ast.Add):
+        return stringish(n.left) and stringish(n.right)
+    if isinstance(n, ast.Subscript):
+        sl = n.slice
+        parts = [sl.lower, sl.upper, sl.step] if isinstance(sl, ast.Slice) else [sl]
+        return stringish(n.value) and all(p is None or stringish(p) or (isinstance(p, ast.UnaryOp) and stringish(p.operand)) for p in parts)
+    if isinstance(n, ast.Call) and isinstance(n.func, ast.Attribute) and n.func.attr == "format" and not n.keywords:
+        return stringish(n.func.value) and all(stringish(a) for a in n.args)
+    if isinstance(n, ast.JoinedStr):
+        return all(isinstance(v, ast.Constant) or (isinstance(v, ast.FormattedValue) and stringish(v.value)) for v in n.values)
+    return False
+
+
 def is_doc(st):
     return isinstance(st, ast.Expr) and isinstance(st.value, ast.Constant) and isinstance(st.value.value, str)
 
@@ -55,7 +75,7 @@ def sig(fd, prefix):
                                    ast.unparse(fd.args), ret, getter)
 
 
-def lines_of(body, prefix):
+def lines_of(body, prefix, messages=False):
     out = []
     for st in body:
         if is_doc(st):
@@ -70,6 +90,9 @@ def lines_of(body, prefix):
         elif isinstance(st, ast.Assign) and not prefix and len(st.targets) == 1 and isinstance(st.targets[0], ast.Name) \
                 and st.targets[0].id in ("__version__", "__author__") and isinstance(st.value, ast.Constant):
             continue                                     # package metadata: a constant nothing reads
+        elif messages and isinstance(st, ast.Assign) and len(st.targets) == 1 and isinstance(st.targets[0], ast.Name) \
+                and stringish(st.value):
+            out.append("%s = <message text>" % st.targets[0].id)     # the wording of a message is free
         else:
             out.append(prefix + " ".join(ast.unparse(st).split()))
     return out
@@ -80,7 +103,7 @@ def surface(repo):
     for rel in DEPENDS:
         path = os.path.join(repo, rel)
         try:
-            res[rel] = lines_of(ast.parse(open(path).read()).body, "")
+            res[rel] = lines_of(ast.parse(open(path).read()).body, "", messages=rel.endswith("message.py"))
         except (OSError, SyntaxError) as e:
             res[rel] = ["unreadable: %s" % e]
     # a module the package does not have in the recorded surface could only matter through an import, which is a
